@@ -1,7 +1,141 @@
-/- Model `TxnScope` (driver token `txnscope`) — stub, to be filled in. -/
-namespace Stab.TxnScope
+/-
+  Model of the thread-local store-transaction scope and the event recorder on ONE thread with the event
+  store in the SAME SQLite database as the workflow store:
 
-/-- driver entry: the rest of the request line after the model token -/
-def drive (_rest : String) : String := "unimplemented"
+    events/txn_scope.py          begin / commit / abort_store_transaction (re-entrant via `depth`)
+    events/recorder/base.py      `_record`: inside a scope the append joins `scope.connection` and the
+                                 publication is queued in `scope.pending`; outside it the event store
+                                 commits on its own and the bus is notified immediately
+    persistence/sqlite/store/store.py   `transaction()`: begin; body; `conn.commit()` + commit_scope
+                                 | on exception `conn.rollback()` + abort_scope
+    events/store/sqlite/events.py       `sequence INTEGER PRIMARY KEY AUTOINCREMENT`
+
+  One thread has one SQLite connection: `conn.commit()` makes EVERYTHING pending on it durable,
+  `conn.rollback()` discards everything pending (also what an enclosing block wrote so far).  After a
+  rollback SQLite hands the rolled-back sequence numbers out again (`sqlite_sequence` is rolled back
+  too), so the next sequence is `#durable + #uncommitted + 1` (no deletes).
+
+  `Ev` = an appended event (sequence, harness tag); a state write (e.g. `txn.store_stage`) is a tag.
+  Ghost fields: `tainted` (an inner block rolled back while an outer block is still open: the queue
+  `pending` now contains events that no longer exist), `swallowed` (such an outer block then COMMITTED,
+  i.e. the inner exception did not propagate).
+-/
+import Stab.Model.Basic
+
+namespace Stab.TxnScope
+open Stab
+
+structure Ev where
+  seq : Nat
+  tag : Nat
+  deriving DecidableEq, Repr, Inhabited
+
+inductive Op where
+  | begin                 -- enter `with store.transaction()`
+  | append (tag : Nat)    -- recorder._record(event) (same-database event store)
+  | write (tag : Nat)     -- a state write on the store (inside a block: txn.*; outside: own commit)
+  | commit                -- leave the innermost block normally
+  | abort                 -- leave the innermost block by an exception
+  | crash                 -- the process dies
+  deriving DecidableEq, Repr, Inhabited
+
+structure St where
+  durable : List Ev := []        -- committed rows of `events`, in sequence order
+  uncommitted : List Ev := []    -- rows inserted on the connection, not yet committed
+  wDurable : List Nat := []      -- committed state writes
+  wUncommitted : List Nat := []  -- state writes pending on the connection
+  pending : List Ev := []        -- scope.pending
+  depth : Nat := 0               -- 0 = no scope bound to the thread
+  published : List Ev := []      -- what a synchronous bus subscriber has seen, in order
+  tainted : Bool := false        -- ghost
+  swallowed : Bool := false      -- ghost
+  deriving Repr, Inhabited, DecidableEq
+
+def St.init : St := {}
+
+/-- AUTOINCREMENT on a table without deletes -/
+def nextSeq (s : St) : Nat := s.durable.length + s.uncommitted.length + 1
+
+def step (s : St) : Op → St
+  | .begin =>
+    if s.depth = 0 then { s with depth := 1, pending := [], tainted := false }
+    else { s with depth := s.depth + 1 }
+  | .append tag =>
+    let e : Ev := { seq := nextSeq s, tag := tag }
+    if s.depth = 0 then
+      -- own connection commit (commits whatever is pending on the connection) + immediate publish
+      { s with durable := s.durable ++ s.uncommitted ++ [e], uncommitted := [],
+               wDurable := s.wDurable ++ s.wUncommitted, wUncommitted := [],
+               published := s.published ++ [e] }
+    else
+      { s with uncommitted := s.uncommitted ++ [e], pending := s.pending ++ [e] }
+  | .write tag =>
+    if s.depth = 0 then
+      { s with durable := s.durable ++ s.uncommitted, uncommitted := [],
+               wDurable := s.wDurable ++ s.wUncommitted ++ [tag], wUncommitted := [] }
+    else { s with wUncommitted := s.wUncommitted ++ [tag] }
+  | .commit =>
+    -- conn.commit()
+    let s := { s with durable := s.durable ++ s.uncommitted, uncommitted := [],
+                      wDurable := s.wDurable ++ s.wUncommitted, wUncommitted := [] }
+    -- commit_store_transaction()
+    if s.depth = 0 then s
+    else if s.depth = 1 then
+      { s with depth := 0, published := s.published ++ s.pending, pending := [],
+               swallowed := s.swallowed || s.tainted, tainted := false }
+    else { s with depth := s.depth - 1 }
+  | .abort =>
+    -- conn.rollback()
+    let s := { s with uncommitted := [], wUncommitted := [] }
+    -- abort_store_transaction()
+    if s.depth = 0 then s
+    else if s.depth = 1 then { s with depth := 0, pending := [], tainted := false }
+    else { s with depth := s.depth - 1, tainted := true }
+  | .crash =>
+    { s with uncommitted := [], wUncommitted := [], pending := [], depth := 0, tainted := false }
+
+def run (s : St) (ops : List Op) : St := ops.foldl step s
+
+/-- output of one op for the driver -/
+def opOut (before after : St) : Op → String
+  | .begin => s!"d{after.depth}"
+  | .append _ => s!"s{nextSeq before}"
+  | .write _ => "w"
+  | .commit => s!"d{after.depth}p{after.published.length}"
+  | .abort => s!"d{after.depth}p{after.published.length}"
+  | .crash => "x"
+
+/-! ### driver: `txnscope run B;A1;W2;B;R;C;X`  → per-op outputs joined by `|`, then ` # ` and the final logs -/
+
+def parseOp (s : String) : Option Op :=
+  if s == "B" then some .begin
+  else if s == "C" then some .commit
+  else if s == "R" then some .abort
+  else if s == "X" then some .crash
+  else if s.startsWith "A" then (Parse.nat? (s.drop 1).toString).map Op.append
+  else if s.startsWith "W" then (Parse.nat? (s.drop 1).toString).map Op.write
+  else none
+
+def showEvs (l : List Ev) : String :=
+  if l.isEmpty then "-" else ",".intercalate (l.map (fun e => s!"{e.tag}@{e.seq}"))
+
+def showSt (s : St) : String :=
+  s!"durable={showEvs s.durable} published={showEvs s.published} writes={Parse.showNats s.wDurable} depth={s.depth}"
+
+def runOut : St → List Op → List String → St × List String
+  | s, [], acc => (s, acc)
+  | s, op :: rest, acc =>
+    let s' := step s op
+    runOut s' rest (acc ++ [opOut s s' op])
+
+def drive (rest : String) : String :=
+  match rest.splitOn " " with
+  | ["run", ops] =>
+    match (if ops == "-" then some [] else Parse.all? parseOp (ops.splitOn ";")) with
+    | some ops =>
+      let (s, outs) := runOut St.init ops []
+      (if outs.isEmpty then "-" else "|".intercalate outs) ++ " # " ++ showSt s
+    | none => "bad-request"
+  | _ => "bad-request"
 
 end Stab.TxnScope
